@@ -129,7 +129,7 @@ def r202(ctx):
             nm = c.callee.name if c.callee else ""
             if nm in (f"{NS}::validate_payments", f"{NS}::apply_payments") or \
                nm.endswith("Validator::set_next_counterparty_commit_num") or \
-               nm == f"{CH}::advance_holder_commitment_state":
+               nm.endswith("Validator::set_next_holder_commit_num"):
                 steps.append((bi, c, nm))
         ctx.floor("R20.2", f"payment check/act steps in {fn}", len(steps), 2)
         for bi, c, nm in steps:
